@@ -44,10 +44,22 @@ class Unmodelled(Exception):
 class _BodyRewriter:
     """Rewrites the statements of an outlined prange body."""
 
-    def __init__(self, reductions: dict[str, str]):
+    def __init__(self, reductions: dict[str, str], shared_written: set[str] | None = None):
         self.loop_depth = 0
         self.tmp = 0
         self.reductions = reductions
+        self.shared_written = shared_written or set()
+
+    def _tag(self, node) -> str:
+        """'store' if the statement/expression writes an element of a shared array that the body writes, 'sload' if it reads
+        one, else 'stmt'.  Conflict-directed policies take scheduling decisions at these points."""
+        tag = "stmt"
+        for n in ast.walk(node):
+            if isinstance(n, ast.Subscript) and isinstance(n.value, ast.Name) and n.value.id in self.shared_written:
+                if isinstance(n.ctx, ast.Store):
+                    return "store"
+                tag = "sload"
+        return tag
 
     def _y(self, tag: str, node, extra: list | None = None):
         elts = [ast.Constant(tag), ast.Constant(getattr(node, "lineno", 0))] + (extra or [])
@@ -76,6 +88,9 @@ class _BodyRewriter:
                                 [ast.Constant(s.target.id), ast.Constant(type(s.op).__name__), s.value], [])
                 out.append(ast.copy_location(ast.Expr(call), s))
             elif isinstance(s, (ast.For, ast.While)):
+                head = s.iter if isinstance(s, ast.For) else s.test
+                if self._tag(head) != "stmt":
+                    out.append(self._y(self._tag(head), s))
                 s = copy.copy(s)
                 self.loop_depth += 1
                 s.body = self.stmts(s.body)
@@ -83,6 +98,8 @@ class _BodyRewriter:
                 s.orelse = self.stmts(s.orelse)
                 out.append(s)
             elif isinstance(s, ast.If):
+                if self._tag(s.test) != "stmt":
+                    out.append(self._y(self._tag(s.test), s))   # the test reads shared written memory: a pre-emption point before it
                 s = copy.copy(s)
                 s.body = self.stmts(s.body)
                 s.orelse = self.stmts(s.orelse)
@@ -94,7 +111,7 @@ class _BodyRewriter:
             elif isinstance(s, (ast.With, ast.Try, ast.FunctionDef, ast.Global, ast.Nonlocal)):
                 raise Unmodelled(f"line {s.lineno}: {type(s).__name__} inside a prange body")
             else:
-                out.append(self._y("stmt", s))
+                out.append(self._y(self._tag(s), s))
                 out.append(s)
         return out
 
@@ -150,7 +167,12 @@ class _Outliner(ast.NodeTransformer):
         self.n += 1
         name = f"__body{self.n}"
         reductions = _find_reductions(node.body)
-        rw = _BodyRewriter(reductions)
+        local_names = _assigned_names(node.body) | {node.target.id}
+        shared_written = set()
+        for n in ast.walk(ast.Module(body=list(node.body), type_ignores=[])):
+            if isinstance(n, ast.Subscript) and isinstance(n.ctx, ast.Store) and isinstance(n.value, ast.Name) and n.value.id not in local_names:
+                shared_written.add(n.value.id)
+        rw = _BodyRewriter(reductions, shared_written)
         body = rw.stmts(copy.deepcopy(node.body))
         body.append(ast.Expr(ast.Yield(ast.Tuple([ast.Constant("end"), ast.Constant(0)], ast.Load()))))
         fn = ast.FunctionDef(name=name,
@@ -532,7 +554,7 @@ class PrangeSim:
                 if t not in gens:
                     t = alive[ds.choose(len(alive), "rmw.next")]
                 tag = step(t)
-                if tag == "rmw" and len(alive) > 1:
+                if tag in ("rmw", "store", "sload") and len(alive) > 1:
                     c = ds.choose(3, "rmw.at_window", (0.55, 0.3, 0.15))
                     if c:
                         others = [u for u in alive if u != t]
